@@ -1,6 +1,12 @@
 package hx
 
-import "sort"
+import (
+	crand "crypto/rand"
+	"crypto/sha256"
+	"encoding/binary"
+	"sort"
+	"sync"
+)
 
 // Rng is a small deterministic generator for structural choices of scenario generators.
 type Rng struct{ s uint64 }
@@ -83,4 +89,40 @@ func Seq(n int) []int {
 		o[i] = i
 	}
 	return o
+}
+
+// DetRand replaces crypto/rand.Reader (read by code under test that bypasses the suite's random stream, e.g.
+// encrypt/ibe's sigma) by a deterministic stream keyed by key, for the duration of f. Scenarios run in parallel
+// goroutines and crypto/rand.Reader is process-global, so the sections are serialised; every scenario that reaches
+// crypto/rand directly must run inside DetRand, otherwise its outcome is not a function of VERIF_SEED.
+var detRandMu sync.Mutex
+
+type detReader struct {
+	key [32]byte
+	ctr uint64
+	buf []byte
+}
+
+func (d *detReader) Read(p []byte) (int, error) {
+	for len(d.buf) < len(p) {
+		var c [8]byte
+		binary.LittleEndian.PutUint64(c[:], d.ctr)
+		d.ctr++
+		h := sha256.Sum256(append(d.key[:], c[:]...))
+		d.buf = append(d.buf, h[:]...)
+	}
+	copy(p, d.buf[:len(p)])
+	d.buf = d.buf[len(p):]
+	return len(p), nil
+}
+
+func DetRand(key string, f func()) {
+	detRandMu.Lock()
+	old := crand.Reader
+	crand.Reader = &detReader{key: sha256.Sum256([]byte(key))}
+	defer func() {
+		crand.Reader = old
+		detRandMu.Unlock()
+	}()
+	f()
 }
